@@ -82,7 +82,7 @@ func init() {
 		}
 		engine.RunSeq(r, engine.SeqSpec{Name: "c03", WorkerArgs: []string{"worker", "store"}, Alphabet: vOpsJSON(alpha), Params: params, Depth: depth, Budget: budget})
 		if r.Quick() {
-			small := vWriteAlphabet(vDS, []string{"e1"}, poolIdx("r2", "dr2", "pq2", "e"), poolIdx("r2", "dr2"), nil)
+			small := vWriteAlphabet(vDS, []string{"e1"}, poolIdx("r2", "dr2", "pq2", "e", "r23", "r3"), poolIdx("r2", "dr2"), nil)
 			small = append(small, VOp{K: "batch", DS: "A", Ents: []VEnt{{"e2", refs[7]}}})
 			engine.RunSeq(r, engine.SeqSpec{Name: "c03-narrow", WorkerArgs: []string{"worker", "store"}, Alphabet: vOpsJSON(small), Params: params, Depth: 3, Budget: 60 * time.Second})
 		}
@@ -100,10 +100,27 @@ func init() {
 		}
 		engine.RunSeq(r, engine.SeqSpec{Name: "c06", WorkerArgs: []string{"worker", "store"}, Alphabet: vOpsJSON(alpha), Params: params, Depth: depth, Budget: budget})
 		if r.Quick() {
-			small := vWriteAlphabet([]string{"A"}, []string{"e1"}, poolIdx("v1", "v2", "dv1", "r2", "dr2"), nil, nil)
+			small := vWriteAlphabet([]string{"A"}, []string{"e1"}, poolIdx("v1", "v2", "dv1", "r2", "dr2", "r23"), nil, nil)
 			small = append(small, VOp{K: "batch", DS: "B", Ents: []VEnt{{"e1", 1}}})
+			for _, c := range poolIdx("r23", "r3") {
+				small = append(small, VOp{K: "batch", DS: "B", Ents: []VEnt{{"e1", c}}})
+			}
 			engine.RunSeq(r, engine.SeqSpec{Name: "c06-narrow", WorkerArgs: []string{"worker", "store"}, Alphabet: vOpsJSON(small), Params: params, Depth: 4, Budget: 60 * time.Second})
 		}
+		// reference-shaped histories of one entity held by two datasets: interleaved commits, removed and re-asserted
+		// references (paged point-in-time queries have to replay newer transactions of the other dataset)
+		var refs []VOp
+		for _, c := range poolIdx("pq2", "r23", "r2", "dr2", "e") {
+			refs = append(refs, VOp{K: "batch", DS: "A", Ents: []VEnt{{"e1", c}}})
+		}
+		for _, c := range poolIdx("r23", "r3", "e") {
+			refs = append(refs, VOp{K: "batch", DS: "B", Ents: []VEnt{{"e1", c}}})
+		}
+		rdepth := 3
+		if !r.Quick() {
+			rdepth = 5
+		}
+		engine.RunSeq(r, engine.SeqSpec{Name: "c06-refs", WorkerArgs: []string{"worker", "store"}, Alphabet: vOpsJSON(refs), Params: params, Depth: rdepth, Budget: budget})
 	})
 }
 
